@@ -38,6 +38,9 @@ def gen_case(rng, flavor=None, size=None):
                     body.append([rng.choice(['unlink', 'unlink', 'relink']), s])
                 elif flavor == 'fs' and ntx > 0 and q < 0.97:
                     body = [['undo', rng.randrange(1, 4)]]
+                    if rng.random() < 0.4:
+                        # multi-undo: further, older transactions undone in the same transaction
+                        body += [['undo', 1] for _ in range(rng.choice([1, 1, 2]))]
                     used = set(slots)
                     break
                 else:
@@ -152,6 +155,7 @@ def run_case(case, root, ck=None):
         linked_p = None         # the same inside the transaction in progress
         root_hist = []          # [(tid, linked before that txn)] for txns that stored the root
         failed = False
+        undone = []
         phase = None
         foreign_seen = False
         try:
@@ -244,6 +248,7 @@ def run_case(case, root, ck=None):
                       txn = TransactionMetaData()
                       S.tpc_begin(txn)
                       pending, failed, phase, foreign_seen = {}, False, 'begun', False
+                      undone = []
                       linked_p = set(linked)
                       check('begin')
                   elif kind in ('unlink', 'relink'):
@@ -288,15 +293,32 @@ def run_case(case, root, ck=None):
                               pending[u64(o)] = 'plain'
                               linked_p.add(u64(o))
                           else:
-                              cands = [t for t in L.txns if t[0] > L.packed_to]
-                              if not cands or pending:
+                              # several undo() calls in one transaction (multi-undo, newest first) are allowed
+                              cands = [t for t in L.txns if t[0] > L.packed_to
+                                       and (not undone or t[0] < min(undone))]
+                              if not cands or (pending and not undone):
                                   continue
                               utid, uoids = cands[-min(op[1], len(cands))]
-                              S.undo(encodebytes(p64(utid)).rstrip(), txn)
-                              nontrivial = True              # undone
+                              newvals = {}
                               for o in uoids:
                                   known, b = L.prev_bytes(o, utid)
-                                  pending[o] = b if known else 'unknown'
+                                  newvals[o] = b if known else 'unknown'
+                              if undone and any(o in pending and (pending[o] == 'unknown' or newvals[o] == 'unknown' or
+                                                                   (isinstance(pending[o], bytes)
+                                                                    and not isinstance(newvals[o], bytes)))
+                                                for o in uoids):
+                                  # excluded: a later undo of the same transaction un-creates an object whose
+                                  # blob copy an earlier one has already put in place (the code leaves that file)
+                                  cnt('skip:multi-undo-uncreates')
+                                  continue
+                              S.undo(encodebytes(p64(utid)).rstrip(), txn)
+                              nontrivial = True              # undone
+                              if undone:
+                                  cnt('multi-undo')
+                                  if any(o in pending for o in uoids):
+                                      cnt('multi-undo:same-object-twice')
+                              undone.append(utid)
+                              pending.update(newvals)
                               for t, before in root_hist:
                                   if t == utid:
                                       linked_p = set(before)
